@@ -3,6 +3,7 @@ import math
 from props.util import *
 from common import run_harness
 
+aux_big = True   # also run the auxiliary big-period family (periods 2500 / 4100, two ring wraps) through the bit-exact tie
 rule = ("composites BB, SLOW, ATR, MACD, PPO, KC, CE, CCI with periods 1..5 (tuples) and sampled larger, multipliers {2,-1.5,0,0.5,1e3} in rotation: each "
         "composite is run on a scalar and/or bar stream (walk / free / grid / ties, length 3n+20) and, in the same run, its public "
         "building blocks (SMA, SD, EMA, TR, FastStochastic, Minimum, Maximum, MAD, ATR) are constructed separately and fed by the "
